@@ -24,6 +24,12 @@ CHECKS = {
          'Counts after an AtLeastOnce restart are not judged. The concurrent clause runs under the H2 token scheduler (cfg walrus_verif).', '§5 C15'),
 }
 CHECKS.update({
+ 'C12': ('E1', 'exploration', 'model-based property testing of reclamation histories on the real file geometry (fill a whole WAL file, generated consumption plans, wait for the reclaimer, restart) with a FIFO oracle and a direct "reclaimed file held only consumed entries" oracle',
+         'Each generated case allocates all 100 blocks of the first WAL file over 1-5 topics and moves every active block to the second file, applies a generated per-topic consumption plan (drain + empty polls / partial / peeks / nothing) and extra reads, waits for the 1000-tick reclaimer, runs a second phase and then demands - normally after a fresh-process restart - exactly the unconsumed entries; if a WAL file disappeared, every entry stored in it must have been consumed.',
+         'Open finding C12-positions-shift-after-reclaim (restart after a reclaimed file renumbers blocks; persisted cursors then skip unconsumed entries) is probed on every run; while it is open, cases in which a file really was reclaimed are finished without the restart. ~0.6 GB of tmpfs per case.', '§5 C12'),
+ 'C13': ('E4', 'exploration', 'model-based property testing with several live instances in one process (per-instance FIFO/marker models, foreign-entry detection, directory watching) plus a heavy two-instance reclamation cross-talk scenario',
+         '2-3 instances from five (data dir, key) slots share topic names and run interleaved generated histories incl. in-process reopen of one instance and whole-process restarts; every response is judged against that instance\'s own model and no WAL file of another instance may disappear. Heavy search: both instances allocate >100 blocks in lock-step, one consumes everything, the other nothing; no file of the idle instance may be reclaimed and after a restart it must deliver everything.',
+         'All instances live in one child process. Payloads >= 8 bytes are unique across instances.', '§5 C13'),
  'C05': ('E3', 'exploration', 'schedule-controlled concurrency testing (H2 token scheduler: generated thread programs x generated schedules, plus preemption-bounded enumeration of all schedules of small two-thread programs) with an exactly-once / real-time-order oracle',
          'Real threads run the real engine one at a time; at every lock-free yield point of the read/append paths the generated schedule decides who continues, so interleavings are inputs and replayable. Oracle: delivered multiset == successfully appended multiset, per-producer order inside each read result and between reads ordered in real time, batch contiguity; a producers-only variant checks the drained serialisation.',
          'Yield points exist only where the engine holds no lock, so data races inside critical sections are outside the explored space. Overlapping reads are not ordered against each other.', '§5 C05'),
@@ -89,7 +95,8 @@ m = {
    'add_only': True,
  },
  'engines': [
-   {'name': 'E1', 'path': 'harness/src/{absop,interp,model}.rs', 'serves_properties': ['C01','C02','C03','C06','C14','C15','C16','C17'], 'kind_free_text': 'sequential model-based search: proptest-generated abstract histories, interpreted against a FIFO reference model, executed in child processes on the real engine'},
+   {'name': 'E1', 'path': 'harness/src/{absop,interp,model}.rs', 'serves_properties': ['C01','C02','C03','C06','C12','C14','C15','C16','C17'], 'kind_free_text': 'sequential model-based search: proptest-generated abstract histories, interpreted against a FIFO reference model, executed in child processes on the real engine'},
+   {'name': 'E4', 'path': 'harness/src/props/multi.rs', 'serves_properties': ['C13'], 'kind_free_text': 'multi-instance interpreter: one child process, several Walrus instances, one reference model per instance'},
    {'name': 'E3', 'path': 'harness/src/props/conc.rs, harness/src/conc.rs', 'serves_properties': ['C05','C15'], 'kind_free_text': 'schedule-controlled concurrency: thread programs executed under the H2 token scheduler (cfg walrus_verif), schedules generated by proptest or enumerated with a preemption bound'},
    {'name': 'E2', 'path': 'harness/src/props/crash.rs', 'serves_properties': ['C04','C07','C08','C09'], 'kind_free_text': 'crash-point enumeration: E1 workloads traced through the H1 I/O seam, re-executed with the process terminated at each selected event, recovered in a fresh process and judged against the acknowledged history'},
  ],
